@@ -5,7 +5,7 @@
    that (in-place numpy updates, shared dictionaries) is what the correspondence and the
    before/after oracle check on every run (tested_only: the numpy aliasing of boundary matrices). *)
 From Coq Require Import String ZArith Bool Arith List.
-From SV Require Import Names NamesFacts ListFacts Rep Fresh Complex Atomic RepInv Reach Homology Filtration Gen World WorldProofs CtorFrame DeepcopyFrame DeepcopyContents FiltCopyFrame CtorHeapFrame.
+From SV Require Import Names NamesFacts ListFacts Rep Fresh Complex Atomic RepInv Reach Homology Filtration Gen World WorldProofs CtorFrame DeepcopyFrame DeepcopyContents FiltCopyFrame CtorHeapFrame ComplexesFrame.
 
 (* any read-only query -- Betti numbers, normal forms, cycle bases, boundaries, Euler
    characteristic and integral, comparisons, ... -- returns the world it was given *)
@@ -94,3 +94,11 @@ Theorem C08_filtration_copy_writes_only_new_cells :
   owned (f_rep c) /\ r_uid (f_rep c) = uid /\ forall h, fst h <> uid -> heap_get hp' h = heap_get hp h.
 Proof. exact f_copy_fresh. Qed.
 Print Assumptions C08_filtration_copy_writes_only_new_cells.
+
+(* complexes() taken as a whole (one snapshot per index, each bound to its own variable): however
+   many it builds and wherever it stops, no dictionary that existed before the call is written *)
+Theorem C08_complexes_writes_no_existing_dictionary :
+  forall w f pre w' o, exec w (CComplexes f pre) = (w', o) ->
+  forall h, fst h < w_uid w -> heap_get (w_heap w') h = heap_get (w_heap w) h.
+Proof. exact complexes_heap_frame. Qed.
+Print Assumptions C08_complexes_writes_no_existing_dictionary.
